@@ -8,7 +8,7 @@ mkdir -p "$WT/_cwd"
 ( cd "$WT/_cwd" && PYTHONPATH="$WT" timeout 600 /venv/bin/python "$SEED/demo.py" >"$WT/_demo0.log" 2>&1 ); D0=$?
 rm -rf "$WT/_cwd"; mkdir -p "$WT/_cwd"
 git -C "$WT" apply "$SEED/patch.diff" || { echo "{\"name\":\"$NAME\",\"apply\":false}" > "$OUT"; git -C /repo worktree remove --force "$WT"; exit 2; }
-/venv/bin/python -m compileall -q "$WT/dataflows" >/dev/null 2>&1; CMP=$?
+/venv/bin/python -m compileall -q -x "templates" "$WT/dataflows" >/dev/null 2>&1; CMP=$?
 ( cd "$WT/_cwd" && PYTHONPATH="$WT" timeout 600 /venv/bin/python "$SEED/demo.py" >"$WT/_demo1.log" 2>&1 ); D1=$?
 rm -rf "$WT/_cwd"
 ( cd "$WT" && PYTHONPATH="$WT" timeout 1500 /venv/bin/python -m pytest -q -p no:cacheprovider --timeout=900 --deselect tests/test_cli.py::test_init_remote --deselect tests/test_examples.py::test_example_3 --deselect tests/test_examples.py::test_example_4 --deselect tests/test_examples.py::test_example_5 >"$WT/_suite.log" 2>&1 ); SU=$?
